@@ -484,6 +484,7 @@ Section WrapProofs.
   (* every label with any argument is disabled in a stuck state (the canonical labels cover enabledness) *)
   Lemma wstuck_complete s l : wstuck pr ilen alen s = true -> wstep s l = None.
   Proof.
+    clear Hil Hal Hecho Hcin Hcout Hord.
     intros Hst. destruct (wstuck_no_label s Hst) as (Hfeed & Hsend & Hfs & Hpush & Hcr & Hce & Hcw & Hk).
     destruct l as [|m| |m|m| |m|m]; simpl; auto.
     - unfold step_send in *. destruct (negb (feeder_ready s)); [reflexivity|].
